@@ -285,3 +285,75 @@ Proof.
   unfold qv_to_sid. destruct (qv_to_ext hids l z z) as [[a|]|]; try discriminate.
   destruct (map_opt eid_to_sid_str a) as [t|] eqn:E; [|discriminate]. intros [= <-]. now exists a.
 Qed.
+
+(* ------------------------------------------------------------------------------------------------------------------ *)
+(* review round: list-level specification of the reverse conversion, the spatial forward corollary, the empty-list exception, the reverse witness *)
+
+(* the reverse conversion of a list is the union of the conversions of its elements (before the final de-duplication, which keeps the set) *)
+Theorem from_qv_loop_spec hids l outH outV r : from_qv_loop hids l outH outV = Some (Ok r) ->
+  (forall q, In q l -> exists a, from_qv_one hids q outH outV = Some (Ok a)) /\
+  (forall id, In id r <-> exists q a, In q l /\ from_qv_one hids q outH outV = Some (Ok a) /\ In id a).
+Proof.
+  revert r. induction l as [|q t IH]; intros r H; cbn [from_qv_loop] in H.
+  - inversion H; subst. split; [intros q []|]. intros id. split; [intros []|intros (q & a & [] & _)].
+  - destruct (from_qv_one hids q outH outV) as [[a|]|] eqn:E; try discriminate.
+    destruct (from_qv_loop hids t outH outV) as [[r'|]|] eqn:L; try discriminate.
+    inversion H; subst. destruct (IH r' eq_refl) as [I0 I1]. split.
+    + intros q' [<-|Hq]; [now exists a | now apply I0].
+    + intros id. rewrite in_app_iff, I1. split.
+      * intros [Ha|(q' & a' & Hq & E' & Hi)]; [exists q, a; split; [now left|auto] | exists q', a'; split; [now right|auto]].
+      * intros (q' & a' & [<-|Hq] & E' & Hi); [left; rewrite E in E'; inversion E'; subst; exact Hi | right; now exists q', a'].
+Qed.
+Theorem qv_to_ext_spec hids l outH outV r : qv_to_ext hids l outH outV = Some (Ok r) ->
+  ext_check_zoom outH outV = true /\
+  (forall id, In id r <-> exists q a, In q l /\ from_qv_one hids q outH outV = Some (Ok a) /\ In id a).
+Proof.
+  unfold qv_to_ext. destruct (ext_check_zoom outH outV); cbn [negb]; [|discriminate]. intros H. split; [reflexivity|].
+  now apply from_qv_loop_spec.
+Qed.
+
+(* reversed heights in the reverse direction, sharp form: when every element is inside the model's domain (no non-finite index), the result IS Err *)
+Theorem qv_to_ext_reversed_heights_err hids l outH outV :
+  (forall q, In q l -> from_qv_one hids q outH outV <> None) ->
+  (exists q, In q l /\ (q_max q <? q_min q)%float = true) ->
+  qv_to_ext hids l outH outV = Some Err.
+Proof.
+  intros Hdom (q & Hin & Hlt). unfold qv_to_ext. destruct (negb (ext_check_zoom outH outV)); [reflexivity|].
+  induction l as [|a r IH]; [destruct Hin|]. cbn [from_qv_loop].
+  destruct Hin as [->|Hin].
+  - now rewrite from_qv_one_reversed.
+  - destruct (from_qv_one hids a outH outV) as [[x|]|] eqn:E; [|reflexivity|exfalso; apply (Hdom a); [now left|exact E]].
+    rewrite IH; [reflexivity | intros q' Hq'; apply Hdom; now right | exact Hin].
+Qed.
+
+(* the spatial-ID forward conversion is the extended one after the notation change, so C17's pairs theorem applies to it as it stands *)
+Theorem sid_to_qv_spec hkeys ids outH outV (mx mn : pfloat) gs : sid_to_qv hkeys ids outH outV mx mn = Ok gs ->
+  exists e, map_opt sid_to_eid_str ids = Some e /\ ext_to_qv hkeys e outH outV mx mn = Ok gs.
+Proof. unfold sid_to_qv. destruct (map_opt sid_to_eid_str ids) as [e|]; [|discriminate]. intros H. now exists e. Qed.
+
+(* THE EMPTY LIST: nothing is interpreted, so no error is raised whatever the heights are — also when maxHeight < minHeight *)
+Theorem ext_to_qv_empty hkeys outH outV (mx mn : pfloat) : quadkey_check_zoom outH outV = true ->
+  ext_to_qv hkeys [] outH outV mx mn = Ok [] /\ sid_to_qv hkeys [] outH outV mx mn = Ok [].
+Proof. intros H. unfold sid_to_qv, ext_to_qv. cbn [map_opt]. rewrite H. split; reflexivity. Qed.
+Theorem qv_to_ext_empty hids outH outV : ext_check_zoom outH outV = true -> qv_to_ext hids [] outH outV = Some (Ok []).
+Proof. intros H. unfold qv_to_ext. rewrite H. reflexivity. Qed.
+(* a concrete instance: reversed heights, empty list, Ok [] (a model fact, not a violation: no voxel is interpreted) *)
+Lemma reversed_heights_empty_list_witness :
+  exists (mx mn : pfloat), (mx <? mn)%float = true /\ forall hkeys, ext_to_qv hkeys [] 20 1 mx mn = Ok [].
+Proof. exists (-1)%float, 1%float. split; [vm_compute; reflexivity|]. intros hk. reflexivity. Qed.
+
+(* REVERSE WITNESS: range [0.1, 0.3], cell 14 of 2^5, output zoom 35: the exact lower bound 0.1 + 14*0.2/32 = 0.1875 - 2^-56.4.. lies below
+   the grid line 0.1875 = 192 * 2^-10, the computed one on it: the code emits 192..198, the exact run is 191..198 (the cell's lowest sliver is
+   not covered); inside the reverse band *)
+Lemma reverse_differs_witness :
+  exists vz k oz (mx mn : pfloat) dmn dmx,
+    dyadic mn = Some dmn /\ dyadic mx = Some dmx /\ range_ok_rev dmn dmx vz k = true /\
+    bit_to_vid_idx vz k oz mx mn = Some (198, 192) /\ rev_ref vz k oz dmn dmx = (191, 198) /\ band_rev vz k oz dmn dmx 192 198 = true.
+Proof.
+  exists 5, 14, 35, 0x1.3333333333333p-2%float, 0x1.999999999999ap-4%float, (7205759403792794, -56), (5404319552844595, -54).
+  repeat split; vm_compute; reflexivity.
+Qed.
+
+Theorem check_rev_complete vz k oz dmn dmx obs :
+  (let '(lo, hi) := rev_ref vz k oz dmn dmx in lo <= hi /\ forall y, In y obs <-> lo <= y <= hi) -> check_rev vz k oz dmn dmx obs = true.
+Proof. unfold check_rev. destruct (rev_ref vz k oz dmn dmx) as [lo hi]. intros [H1 H2]. now apply check_run_complete. Qed.
